@@ -263,6 +263,28 @@ func c08cliInterrupted(setupMode, teardownMode string) (row c08row) {
 	return row
 }
 
+// c15limits (for C15): the limits section of a config file is mapped one-to-one onto the run options - observed through
+// what the run then does with them: verdict rows for every way of writing the two failure tolerances, through the real
+// `run file <path>` command line
+func init() {
+	register("c15limits", func(c *ctx) error {
+		w, err := newNDJSON(filepath.Join(c.out, "c15limits.ndjson"))
+		if err != nil {
+			return err
+		}
+		defer w.close()
+		for _, tol := range [][2]int{{-1, -1}, {5, -1}, {4, -1}, {-1, 50}, {-1, 49}, {5, 50}, {4, 60}, {6, 40}, {0, 0}, {0, 50}, {100000, 5}, {100000, 60}, {5, 0}} {
+			w.write(c08cliFile(c.out, 10, 5, tol[0], tol[1]))
+		}
+		// one failure of ten under a generous share, and none at all
+		w.write(c08cliFile(c.out, 10, 1, -1, 50))
+		w.write(c08cliFile(c.out, 10, 1, -1, 5))
+		w.write(c08cliFile(c.out, 6, 0, -1, -1))
+		fmt.Println("c15limits rows:", w.n)
+		return nil
+	})
+}
+
 func init() {
 	register("c08", func(c *ctx) error {
 		w, err := newNDJSON(filepath.Join(c.out, "c08.ndjson"))
